@@ -27,7 +27,8 @@ TRUSTED_BASE = BASE_TRUSTED + [
     'external minimiser (scipy.optimize.minimize / least_squares / dual_annealing / differential_evolution): only its '
     'contract is used - it evaluates the objective on some finite sequence of points and returns a point x* inside the bounds '
     'it was given; f* in the theorems is the value the objective took at x* (fstar = _fun x*), with f* <= f(x0). Validated on '
-    'every logged run: the lens must equal result.x, its re-evaluated merit must equal the logged objective at x*, and that '
+    'every logged run: the current variable vector must be among the evaluated points (each front end passes it to SciPy as '
+    'x0; clause start-vector-not-evaluated), the lens must equal result.x, its re-evaluated merit must equal the logged objective at x*, and that '
     'value must not exceed the start. result.fun is compared with the logged value too, but a mismatch that is SciPy\'s own '
     '(BFGS returning fun = 1e10 from the NaN guard with an x whose logged value is lower; x* not among the logged points) is '
     'counted in the histogram (scipy-result-inconsistent / xstar-not-among-logged-points) and is not a violation of C14',
@@ -45,7 +46,8 @@ RULE = ('kernels: seeded values in [-1e3,1e3] plus 0/inf/nan, coefficient number
         '= current value, None} for every variable class scaled and unscaled, and optimiser runs with a variable at 0 '
         'whose limit is 0 and the optimum beyond it; multi-optic block: one problem over 2-3 lenses, variables interleaved in '
         'orders AAB ABA BBA AABC BAAC AB CCBAB ABBCA BABA, pickup and/or marginal-ray-height solve on every lens, every front end, '
-        'contract checked per optic (update() calls per optic, state, merit, bounds, pickup and solve residuals, undo); non-trivial = the optimiser moved at least one variable')
+        'contract checked per optic; pre-optimised block: every front end started from a locally optimised lens with wide bounds and '
+        'maxiter 1-3 (np.random.seed), not-worse and start-vector-evaluated checked; (update() calls per optic, state, merit, bounds, pickup and solve residuals, undo); non-trivial = the optimiser moved at least one variable')
 PARTIAL = [
     'the state/merit/not-worse/bounds/undo theorems are about the REPAIRED optimize()/undo() (optimize_fixed, undo_fixed); '
     'for the code as written the same statements are refuted (coq/Findings/F_C14.v) and listed as findings',
@@ -719,6 +721,44 @@ def gen_opt_cases(rng, n):
     return cases
 
 
+# ---------------------------------------------------------------------------------------------
+# runs that start from an already good (pre-optimised) lens, wide bounds, tiny budget: "not worse than the start"
+# only holds if the front end hands the CURRENT variable vector to SciPy as the start point
+# ---------------------------------------------------------------------------------------------
+PRE_FES = [('generic', {'disp': False, 'maxiter': 2}), ('least_squares', {'maxiter': 2}),
+           ('dual_annealing', {'maxiter': 2, 'disp': False}),
+           ('differential_evolution', {'maxiter': 1, 'disp': False, 'workers': 1}),
+           ('compensator:generic', {}), ('compensator:least_squares', {}),
+           ('dual_annealing', {'maxiter': 1, 'disp': False}), ('dual_annealing', {'maxiter': 3, 'disp': False})]
+
+
+def gen_preopt_cases(rng, n):
+    cases = []
+    for i in range(n):
+        fe, kw = PRE_FES[i % len(PRE_FES)]
+        lens = gen_lens(rng, special=False, pickup_p=0.0)
+        last = len(lens['surfs'])
+        cand = [c for c in candidate_vars(lens) if c[0] in ('radius', 'conic') or (c[0] == 'thickness' and c[1] < last)]
+        rng.shuffle(cand)
+        vars_ = []
+        for c in cand[:rng.randint(2, 3)]:
+            raw = raw_of(lens, c)
+            span = 3.0 * SPAN[c[0]]
+            v = {'type': c[0], 'surf': c[1], 'a': 0, 'b': 0, 'scaled': True, 'min': raw - span, 'max': raw + span}
+            if c[0] == 'thickness':
+                v['min'] = max(v['min'], 0.5)
+            vars_.append(v)
+        ops = [{'type': 'f2', 'target': rng.uniform(60, 100), 'weight': rng.uniform(0.5, 2.0), 'data': {}},
+               {'type': 'real_y_intercept', 'target': 0.0, 'weight': rng.uniform(1, 4),
+                'data': {'surface_number': -1, 'Hx': 0.0, 'Hy': 0.0, 'Px': 0.0, 'Py': 1.0, 'wavelength': 0.55}},
+               {'type': 'real_y_intercept', 'target': 0.0, 'weight': rng.uniform(1, 4),
+                'data': {'surface_number': -1, 'Hx': 0.0, 'Hy': 0.0, 'Px': 0.0, 'Py': 0.7, 'wavelength': 0.55}}]
+        cases.append({'lens': lens, 'vars': vars_, 'ops': ops, 'coords': coords_for(lens, vars_), 'frontend': fe, 'kwargs': kw,
+                      'steps': ['opt'] if fe.startswith('compensator') else ['opt', 'undo'], 'np_seed': rng.randrange(10 ** 6),
+                      'preopt': 80, 'preoptimised': True})
+    return cases
+
+
 def check_opt(cases, obs, tag):
     """returns (disagreements, nontrivial, histogram)"""
     B = Bools()
@@ -865,6 +905,12 @@ def opt_oracle(c, o, bad, ci, hist):
             elif (ci, si, 'fixed') in bad:
                 out.append({'case': ci, 'clause': 'model-fixed', 'frontend': fe, 'step_index': si, 'violates_property': False,
                             'replay': {'mode': 'opt', 'case': c}})
+            # obligation behind "f* <= f(x0)": every front end hands the current variable vector to SciPy as the start
+            # point, so it is among the evaluated points (least_squares may nudge it 1e-10 inside a bound)
+            if log and not any(all(near(a, b, 1e-9) for a, b in zip(p_, bvals)) for p_, _f in log):
+                hist['start-vector-not-evaluated'] = hist.get('start-vector-not-evaluated', 0) + 1
+                out.append({'case': ci, 'clause': 'start-vector-not-evaluated', 'frontend': fe, 'step_index': si, 'start_vector': bvals,
+                            'first_evaluated': log[0][0], 'violates_property': False, 'replay': {'mode': 'opt', 'case': c}})
             # not worse than the start.  scipy.least_squares first moves a start point lying ON a bound strictly inside
             # (make_strictly_feasible, 1e-10 absolute): its own start value is then the first logged evaluation
             if 'least_squares' in fe and log:
@@ -1215,7 +1261,7 @@ def system_checks(ctx):
         res['error'] = str(e)
     yield res
     # (c) optimise / undo
-    cases = gen_opt_cases(rng, ctx.n(21, 210)) + gen_boundary_opt_cases(rng, ctx.n(10, 60))
+    cases = gen_opt_cases(rng, ctx.n(21, 210)) + gen_boundary_opt_cases(rng, ctx.n(10, 60)) + gen_preopt_cases(rng, ctx.n(8, 64))
     res = {'name': 'optimise-undo-vs-model', 'n': len(cases), 'nontrivial': 0, 'samples': [], 'disagreements': []}
     try:
         obs = run_opt_cases(cases, 'C14o')
@@ -1227,6 +1273,7 @@ def system_checks(ctx):
         res['histogram'] = {'frontends': fes, 'clauses_violated': hist,
                             'with_pickups': sum(1 for c in cases if c['lens']['pickups']),
                             'boundary_runs': sum(1 for c in cases if c.get('boundary')),
+                            'preoptimised_start_tiny_budget_runs': sum(1 for c in cases if c.get('preoptimised')),
                             'd07_configurations': sum(1 for c in cases if d07_config(c['vars']))}
         res['samples'] = [{'frontend': cases[0]['frontend'], 'vars': cases[0]['vars'], 'steps': cases[0]['steps']}]
     except RuntimeError as e:
@@ -1246,7 +1293,7 @@ def search(ctx, broken, disagreements):
     cases = gen_merit_cases(rng, ctx.n(30, 200))
     obs = vlib.run_python(HARNESS, {'mode': 'merit', 'cases': cases})
     found += [d for d in check_merit_oracle(cases, obs)]
-    cases = gen_boundary_opt_cases(rng, ctx.n(12, 60)) + gen_opt_cases(rng, ctx.n(28, 140))
+    cases = gen_preopt_cases(rng, ctx.n(16, 64)) + gen_boundary_opt_cases(rng, ctx.n(12, 60)) + gen_opt_cases(rng, ctx.n(28, 140))
     obs = run_opt_cases(cases, 'C14s')
     hist = {}
     for ci, (c, o) in enumerate(zip(cases, obs)):
